@@ -40,7 +40,7 @@ TWIN = S.GENERAL.but(p_nested=42, force_nested=90, max_members=4, p_raise=15, p_
 
 
 def budget(tier):
-    return dict(examples=4000 if tier == 'quick' else 150000)
+    return dict(examples=7000 if tier == 'quick' else 150000)
 
 
 def strategy(tier):
